@@ -20,13 +20,14 @@
 (* Amounts are in units (Cap units fit into the socket buffer).            *)
 (* Deviations (FALSE for the code as it is):                               *)
 (*   Dev_NoStaleCheck  a nil signal always completes the waiting flush      *)
+(*   Dev_NoStaleCheckUntimed  ... of a flush without timeout only            *)
 (*                     (the code before the repair of L1)                   *)
 (*   Dev_NoRearm       a stale signal is skipped without registering the    *)
 (*                     write interest again (before the repair of L1b)      *)
 (***************************************************************************)
 EXTENDS Integers, Sequences, FiniteSets, TLC
 
-CONSTANTS Cap, MaxN, NOps, Dev_NoStaleCheck, Dev_NoRearm,
+CONSTANTS Cap, MaxN, NOps, Dev_NoStaleCheck, Dev_NoStaleCheckUntimed, Dev_NoRearm,
           EagerKernel    \* TRUE: EPOLLOUT is reported whenever there is room and the timer may fire at any moment after it was armed;
                          \* FALSE: what the harness can drive (unix socket: writable again only once drained; timer fires while the flush waits)
 
@@ -131,7 +132,7 @@ FWaitT ==    \* select { case err = <-writeTrigger ; case <-timer.C }
 \* staleFlushSignal: a nil signal with a non-empty output buffer is the leftover of an earlier flush
 FStale ==
     /\ fpc = "f_stale"
-    /\ LET stale == ~Dev_NoStaleCheck /\ blen # 0 IN
+    /\ LET stale == ~Dev_NoStaleCheck /\ ~(Dev_NoStaleCheckUntimed /\ ~Cur.timed) /\ blen # 0 IN
        IF stale
        THEN /\ fpc' = IF Dev_NoRearm THEN (IF Cur.timed THEN "f_waitT" ELSE "f_wait") ELSE "f_rearm"
             /\ UNCHANGED <<rets, timer>>
@@ -160,7 +161,7 @@ FT2 ==       \* the timer won: look at the trigger once more, else give up
 
 FStale2 ==   \* staleFlushSignal on the timeout path
     /\ fpc = "f_stale2"
-    /\ LET stale == ~Dev_NoStaleCheck /\ blen # 0 IN
+    /\ LET stale == ~Dev_NoStaleCheck /\ ~(Dev_NoStaleCheckUntimed /\ ~Cur.timed) /\ blen # 0 IN
        IF stale THEN fpc' = (IF Dev_NoRearm THEN "f_rw2r" ELSE "f_rearm2") /\ UNCHANGED rets
        ELSE Ret("nil")
     /\ UNCHANGED <<ops, opi, fvec, fk, fsig, blen, bvis, fin, pin, sock, drained, submitted, reg, wt, flock, timer, ppc, pvec, pk, pev, hz>>
